@@ -179,6 +179,10 @@ def case_strategy(draw, max_components=4):
         else:
             sel = _spell(draw, kind)
         comps.append({"env": sel, "interp": draw(st.integers(0, 3)) == 3})
+    # selectors are case-insensitive: a twin that writes the same selector in lower case must get the same answer
+    for idx, c in enumerate(list(comps)):
+        if c["env"] and c["env"] != c["env"].lower() and len(comps) < max_components + 2 and draw(st.booleans()):
+            comps.append({"env": c["env"].lower(), "interp": c["interp"], "twin_of": idx})
     return {"platform": platform, "envs": sections, "launch": launch, "system": system, "components": comps,
             "validate": draw(st.booleans()), "primitive": draw(st.booleans()),
             "declare_platforms": draw(st.booleans())}
@@ -380,9 +384,34 @@ def _run_graph(case):
         return ("ok", out)
 
 
+def _spelling_relation(case, payload, where):
+    """payload[i] = ("env", value) | ("exc", exception); value may be a pair (graph answer, specification answer)."""
+    def norm(o):
+        if o[0] == "exc":
+            return ("exc", type(o[1]).__name__)
+        v = o[1][0] if isinstance(o[1], tuple) else o[1]
+        return ("env", {k: x for k, x in v.items() if k != "FLOW_RUN_ID"})
+    for i, c in enumerate(case["components"]):
+        j = c.get("twin_of")
+        if j is None or i >= len(payload) or j >= len(payload):
+            continue
+        a, b = norm(payload[j]), norm(payload[i])
+        if a != b:
+            raise Violation("selector-spelling-changes-result",
+                            "%s: selector %r -> %s but the same selector in lower case %r -> %s (platform %s, "
+                            "environments %s)" % (where, case["components"][j]["env"], _brief_outcome(a), c["env"],
+                                                  _brief_outcome(b), case["platform"], case["envs"]))
+
+
+def _brief_outcome(o):
+    return "raises " + o[1] if o[0] == "exc" else "environment with keys %s" % sorted(o[1])
+
+
 def check_graph(case, ctx: Ctx):
     exps = _expectations(case, case["system"])
     status, payload = _run_graph(case)
+    if status == "ok":
+        _spelling_relation(case, payload, "WorkflowGraph.environmentForNode")
     if status == "construct-error":
         _judge_construct_error(case, exps, payload)
         ctx.rec.label("rejected-at-validation")
@@ -427,6 +456,7 @@ def check_experiment(case, ctx: Ctx):
             _record(case, exps, ctx, "experiment")
             return
         exps = None
+        _spelling_relation(case, payload, "Experiment")
         for i, outcome in enumerate(payload):
             if outcome[0] == "env":
                 a, b = outcome[1]
